@@ -279,5 +279,20 @@ def sha(obj) -> str:
     return hashlib.sha1(json.dumps(obj, sort_keys=True, default=str).encode()).hexdigest()[:12]
 
 
+def ckey(x) -> str:
+    """content key of a case (program, op list, snapshot …): distinctness of evidence cases is decided on CONTENT."""
+    def conv(o):
+        if hasattr(o, "describe"):
+            return conv(o.describe())
+        if isinstance(o, dict):
+            return {str(k): conv(v) for k, v in o.items()}
+        if isinstance(o, (list, tuple)):
+            return [conv(v) for v in o]
+        if isinstance(o, (str, int, float, bool)) or o is None:
+            return o
+        return repr(o)
+    return sha(conv(x))
+
+
 def budget(tier: str, quick: float, thorough: float) -> float:
     return thorough if tier == "thorough" else quick
